@@ -1091,3 +1091,680 @@ func ruleBLT1(c *Ctx) {
 		}
 	}
 }
+
+// ADPT.8 (C19): a wrapper rejects only what the wrapped function cannot take.
+// Where a hand-written stdlib wrapper hands an integer argument straight to a
+// function of the Go standard library and guards it first (`if v < a || v > b
+// { return error }`), the guard may reject a value only if that function
+// panics for it. The panic domain is read from the function's own source in
+// the toolchain that builds /repo: leading `if cond { panic(…) }` statements
+// over the parameter, followed through the calls that pass the parameter on.
+// Guard and domain are evaluated over a window of integers (finite-domain
+// evaluation of two conditions; nothing is run). Not decided: guards on values
+// that are not passed straight through, and functions whose source shows no
+// such leading panic (the rule is then silent).
+func ruleADPT8(c *Ctx) {
+	w := c.W
+	p := w.Stdlib
+	seq := seqKeys{}
+	n := 0
+	// evaluate an integer condition over one variable
+	var evalInt func(pk pkgT, e ast.Expr, v types.Object, x int64) (int64, bool)
+	var evalCond func(pk pkgT, e ast.Expr, v types.Object, x int64) (bool, bool)
+	evalInt = func(pk pkgT, e ast.Expr, v types.Object, x int64) (int64, bool) {
+		e = ast.Unparen(e)
+		if k, ok := ConstInt(pk, e); ok {
+			return k, true
+		}
+		switch y := e.(type) {
+		case *ast.Ident:
+			if pk.TypesInfo.ObjectOf(y) == v {
+				return x, true
+			}
+		case *ast.CallExpr:
+			if tv, ok := pk.TypesInfo.Types[y.Fun]; ok && tv.IsType() && len(y.Args) == 1 {
+				return evalInt(pk, y.Args[0], v, x)
+			}
+		case *ast.BinaryExpr:
+			a, ok1 := evalInt(pk, y.X, v, x)
+			b, ok2 := evalInt(pk, y.Y, v, x)
+			if ok1 && ok2 {
+				switch y.Op {
+				case token.ADD:
+					return a + b, true
+				case token.SUB:
+					return a - b, true
+				}
+			}
+		}
+		return 0, false
+	}
+	evalCond = func(pk pkgT, e ast.Expr, v types.Object, x int64) (bool, bool) {
+		e = ast.Unparen(e)
+		switch y := e.(type) {
+		case *ast.UnaryExpr:
+			if y.Op == token.NOT {
+				r, ok := evalCond(pk, y.X, v, x)
+				return !r, ok
+			}
+		case *ast.BinaryExpr:
+			switch y.Op {
+			case token.LAND, token.LOR:
+				a, ok1 := evalCond(pk, y.X, v, x)
+				b, ok2 := evalCond(pk, y.Y, v, x)
+				if y.Op == token.LAND {
+					if (ok1 && !a) || (ok2 && !b) {
+						return false, true
+					}
+					return a && b, ok1 && ok2
+				}
+				if (ok1 && a) || (ok2 && b) {
+					return true, true
+				}
+				return a || b, ok1 && ok2
+			case token.LSS, token.LEQ, token.GTR, token.GEQ, token.EQL, token.NEQ:
+				a, ok1 := evalInt(pk, y.X, v, x)
+				b, ok2 := evalInt(pk, y.Y, v, x)
+				if !ok1 || !ok2 {
+					return false, false
+				}
+				switch y.Op {
+				case token.LSS:
+					return a < b, true
+				case token.LEQ:
+					return a <= b, true
+				case token.GTR:
+					return a > b, true
+				case token.GEQ:
+					return a >= b, true
+				case token.EQL:
+					return a == b, true
+				default:
+					return a != b, true
+				}
+			}
+		}
+		return false, false
+	}
+	// panic domain of parameter k of a standard-library function: the leading `if cond { panic }` conditions
+	type domain struct {
+		pk    pkgT
+		cond  ast.Expr
+		param types.Object
+	}
+	var panicDomain func(fn *types.Func, k int, depth int) []domain
+	panicDomain = func(fn *types.Func, k int, depth int) []domain {
+		if fn == nil || fn.Pkg() == nil || depth > 3 {
+			return nil
+		}
+		rp, err := w.loadRef(fn.Pkg().Path())
+		if err != nil || rp == nil {
+			return nil
+		}
+		var fd *ast.FuncDecl
+		for _, f := range rp.Syntax {
+			for _, d := range f.Decls {
+				if x, ok := d.(*ast.FuncDecl); ok && x.Body != nil && x.Name.Name == fn.Name() && (x.Recv == nil) == (fn.Type().(*types.Signature).Recv() == nil) {
+					fd = x
+				}
+			}
+		}
+		if fd == nil {
+			return nil
+		}
+		var params []types.Object
+		for _, f := range fd.Type.Params.List {
+			for _, nm := range f.Names {
+				params = append(params, rp.TypesInfo.Defs[nm])
+			}
+		}
+		if k >= len(params) || params[k] == nil {
+			return nil
+		}
+		pobj := params[k]
+		var out []domain
+		ast.Inspect(fd.Body, func(nd ast.Node) bool {
+			switch y := nd.(type) {
+			case *ast.IfStmt:
+				if len(y.Body.List) >= 1 {
+					if es, ok := y.Body.List[len(y.Body.List)-1].(*ast.ExprStmt); ok {
+						if call, ok := es.X.(*ast.CallExpr); ok && IsBuiltinCall(rp, call, "panic") {
+							if containsNode(y.Cond, func(m ast.Node) bool {
+								id, ok := m.(*ast.Ident)
+								return ok && rp.TypesInfo.ObjectOf(id) == pobj
+							}) {
+								out = append(out, domain{rp, y.Cond, pobj})
+							}
+						}
+					}
+				}
+			case *ast.CallExpr:
+				callee := Callee(rp, y)
+				if callee == nil || callee.Pkg() == nil || callee.Pkg().Path() != fn.Pkg().Path() || (callee.Name() == fn.Name() && depth > 0) {
+					return true
+				}
+				for i, a := range y.Args {
+					if id, ok := ast.Unparen(a).(*ast.Ident); ok && rp.TypesInfo.ObjectOf(id) == pobj {
+						out = append(out, panicDomain(callee, i, depth+1)...)
+					}
+				}
+			}
+			return true
+		})
+		return out
+	}
+	w.AllFuncDecls(p, func(fd *ast.FuncDecl) {
+		if fd.Recv != nil || fd.Type.Params.NumFields() != 1 || fd.Type.Results.NumFields() != 2 {
+			return
+		}
+		if _, variadic := fd.Type.Params.List[0].Type.(*ast.Ellipsis); !variadic {
+			return
+		}
+		inspectWithStack(fd.Body, func(nd ast.Node, stack []ast.Node) bool {
+			call, ok := nd.(*ast.CallExpr)
+			if !ok {
+				return true
+			}
+			fn := Callee(p, call)
+			if fn == nil || fn.Pkg() == nil || w.inModulePkg(fn.Pkg()) || strings.Contains(strings.SplitN(fn.Pkg().Path(), "/", 2)[0], ".") {
+				return true
+			}
+			for k, a := range call.Args {
+				id, ok := ast.Unparen(a).(*ast.Ident)
+				if !ok {
+					continue
+				}
+				v, ok := p.TypesInfo.ObjectOf(id).(*types.Var)
+				if !ok || v.IsField() {
+					continue
+				}
+				if b, ok := v.Type().Underlying().(*types.Basic); !ok || b.Info()&types.IsInteger == 0 {
+					continue
+				}
+				// guards on v that end the wrapper before the call
+				var guards []*ast.IfStmt
+				for _, g := range precedingGuards(stack) {
+					if _, ok := evalCond(p, g.Cond, v, 0); ok {
+						guards = append(guards, g)
+					}
+				}
+				n++
+				key := seq.next("value-guard/" + funcKey(fd) + "/" + fn.Pkg().Name() + "." + fn.Name())
+				if len(guards) == 0 {
+					c.ok(key, call, "the argument reaches "+fn.Name()+" unguarded")
+					continue
+				}
+				doms := panicDomain(fn, k, 0)
+				if len(doms) == 0 {
+					c.ok(key, call, "guarded; "+fn.Name()+"'s source shows no leading panic over that parameter (not decided)")
+					continue
+				}
+				var bad []int64
+				for x := int64(-70); x <= 300; x++ {
+					rejected := false
+					for _, g := range guards {
+						if r, _ := evalCond(p, g.Cond, v, x); r {
+							rejected = true
+						}
+					}
+					if !rejected {
+						continue
+					}
+					panics := false
+					for _, d := range doms {
+						if r, ok := evalCond(d.pk, d.cond, d.param, x); ok && r {
+							panics = true
+						}
+					}
+					if !panics {
+						bad = append(bad, x)
+					}
+				}
+				if len(bad) > 0 {
+					c.fail(key, guards[0], fmt.Sprintf("the wrapper rejects %s = %v, which %s.%s accepts (it panics only under `%s`): for these values the script function does not compute what the Go function computes", id.Name, bad, fn.Pkg().Name(), fn.Name(), w.Src(doms[0].cond)))
+				} else {
+					c.ok(key, call, "the guard rejects only values for which "+fn.Name()+" panics")
+				}
+			}
+			return true
+		})
+	})
+	if n < 5 {
+		c.fail("value-guard/count", nil, fmt.Sprintf("only %d integer arguments handed straight to standard-library functions found in the stdlib wrappers", n))
+	}
+}
+
+// ALIAS.1 (C17, C01): a tail cut off a buffer does not survive appends to the
+// buffer. `t = x[i:]` shares x's backing array up to its end; once x is cut
+// back (`x = x[:k]`) an `x = append(x, …)` writes into the very bytes t still
+// shows. If t is read after such an append it must have been copied
+// (`append(t[:0:0], x[i:]...)`, a separate array). The formatter's exponent
+// handling (fmtFloat, as in fmt) depends on that copy.
+func ruleALIAS1(c *Ctx) {
+	w := c.W
+	seq := seqKeys{}
+	funcs := 0
+	for _, p := range w.All {
+		if !w.inModulePkg(p.Types) {
+			continue
+		}
+		w.AllFuncDecls(p, func(fd *ast.FuncDecl) {
+			funcs++
+			type cut struct {
+				t, x types.Object
+				at   ast.Node
+			}
+			var cuts []cut
+			isSliceVar := func(e ast.Expr) types.Object {
+				id, ok := ast.Unparen(e).(*ast.Ident)
+				if !ok {
+					return nil
+				}
+				v, ok := p.TypesInfo.ObjectOf(id).(*types.Var)
+				if !ok || v.IsField() {
+					return nil
+				}
+				if _, ok := v.Type().Underlying().(*types.Slice); !ok {
+					return nil
+				}
+				return v
+			}
+			ast.Inspect(fd.Body, func(n ast.Node) bool {
+				as, ok := n.(*ast.AssignStmt)
+				if !ok || len(as.Lhs) != len(as.Rhs) {
+					return true
+				}
+				for i, l := range as.Lhs {
+					t := isSliceVar(l)
+					se, ok := ast.Unparen(as.Rhs[i]).(*ast.SliceExpr)
+					if t == nil || !ok || se.High != nil || se.Max != nil || se.Low == nil {
+						continue
+					}
+					if k, isK := ConstInt(p, se.Low); isK && k == 0 {
+						continue
+					}
+					x := isSliceVar(se.X)
+					if x == nil || x == t {
+						continue
+					}
+					cuts = append(cuts, cut{t, x, as})
+				}
+				return true
+			})
+			for _, ct := range cuts {
+				// after the cut: x truncated, then appended to, then t read
+				var truncAt, appendAt token.Pos
+				ast.Inspect(fd.Body, func(n ast.Node) bool {
+					as, ok := n.(*ast.AssignStmt)
+					if !ok || as.Pos() <= ct.at.Pos() || len(as.Lhs) != 1 || len(as.Rhs) != 1 || isSliceVar(as.Lhs[0]) != ct.x {
+						return true
+					}
+					switch r := ast.Unparen(as.Rhs[0]).(type) {
+					case *ast.SliceExpr:
+						if isSliceVar(r.X) == ct.x && r.High != nil && !truncAt.IsValid() {
+							truncAt = as.Pos()
+						}
+					case *ast.CallExpr:
+						if IsBuiltinCall(p, r, "append") && len(r.Args) >= 2 && truncAt.IsValid() && !appendAt.IsValid() {
+							base := ast.Unparen(r.Args[0])
+							if sl, ok := base.(*ast.SliceExpr); ok {
+								base = sl.X
+							}
+							if isSliceVar(base) == ct.x {
+								// appending t itself first is the hand-back, not an overwrite
+								if len(r.Args) == 2 && r.Ellipsis.IsValid() && isSliceVar(r.Args[1]) == ct.t {
+									return true
+								}
+								appendAt = as.Pos()
+							}
+						}
+					}
+					return true
+				})
+				if !appendAt.IsValid() {
+					continue
+				}
+				usedAfter := false
+				ast.Inspect(fd.Body, func(n ast.Node) bool {
+					id, ok := n.(*ast.Ident)
+					if ok && id.Pos() > appendAt && p.TypesInfo.Uses[id] == ct.t {
+						usedAfter = true
+					}
+					return !usedAfter
+				})
+				if usedAfter {
+					c.fail(seq.next("tail-alias/"+funcKey(fd)), ct.at, w.Src(ct.at)+": the tail shares the buffer's backing array; the buffer is then cut back and appended to, which overwrites the bytes the tail still shows, and the tail is read afterwards - it must be copied before the buffer is reused")
+				}
+			}
+		})
+	}
+	c.check(funcs > 100, "tail-alias/scan", nil, fmt.Sprintf("%d functions of the module examined: no tail of a buffer is read after the buffer was cut back and appended to", funcs), "too few functions examined")
+}
+
+// CONV.2 (C15, C10): strings convert to numbers the decimal way. The string
+// arms of the integer conversions call strconv.ParseInt(s, 10, 64) and the
+// float conversion strconv.ParseFloat(s, 64): a script string "010" is ten in
+// int("010"), in Variable.Int() and wherever else the coercion table applies
+// (the base-0 spellings belong to literals, which the parser converts).
+func ruleCONV2(c *Ctx) {
+	w := c.W
+	p := w.Root
+	n := 0
+	for _, name := range []string{"ToInt", "ToInt64", "ToFloat64"} {
+		fd := w.FuncDecl(p, name)
+		if fd == nil {
+			c.anchor(name)
+			continue
+		}
+		ast.Inspect(fd.Body, func(nd ast.Node) bool {
+			call, ok := nd.(*ast.CallExpr)
+			if !ok {
+				return true
+			}
+			switch FuncFullName(Callee(p, call)) {
+			case "strconv.ParseInt":
+				n++
+				base, ok1 := ConstInt(p, call.Args[1])
+				bits, ok2 := ConstInt(p, call.Args[2])
+				c.check(len(call.Args) == 3 && ok1 && base == 10 && ok2 && bits == 64, "string-to-number/"+name, call, "ParseInt(s, 10, 64)", name+" converts strings with "+w.Src(call)+": the coercion of a script string to an integer is decimal and 64 bits wide (base 0 would read \"010\" as 8 and accept 0x…, 0b…, 1_000)")
+			case "strconv.ParseFloat":
+				n++
+				bits, ok := ConstInt(p, call.Args[1])
+				c.check(len(call.Args) == 2 && ok && bits == 64, "string-to-number/"+name, call, "ParseFloat(s, 64)", name+" converts strings with "+w.Src(call))
+			case "strconv.Atoi":
+				n++
+				c.ok("string-to-number/"+name, call, "Atoi (decimal)")
+			}
+			return true
+		})
+	}
+	if n < 3 {
+		c.fail("string-to-number/count", nil, fmt.Sprintf("expected the string arms of ToInt, ToInt64 and ToFloat64, found %d conversions", n))
+	}
+}
+
+// SCOPE.2 (C11, C01): a function's body is a block below its parameters, as
+// the body of an if or a for is a block below the surrounding scope: the
+// function-literal arm compiles node.Body through Compile (the BlockStmt arm,
+// which forks a block table), not statement by statement in the table that
+// holds the parameters and the captured names.
+func ruleSCOPE2(c *Ctx) {
+	w := c.W
+	p := w.Root
+	arm := w.compileArm("FuncLit")
+	if arm == nil {
+		c.anchor("Compile arm for *parser.FuncLit")
+		return
+	}
+	viaBlock := containsNode(arm, func(nd ast.Node) bool {
+		call, ok := nd.(*ast.CallExpr)
+		if !ok || !isMethodOf(Callee(p, call), p.Types, "Compiler", "Compile") || len(call.Args) != 1 {
+			return false
+		}
+		return namedIs(p.TypesInfo.TypeOf(call.Args[0]), w.Parser.Types, "BlockStmt")
+	})
+	c.check(viaBlock, "function-body-is-a-block", arm, "the body is compiled as a block statement (its own block scope below the parameters)", "the function-literal arm does not compile the body as a block statement: its declarations land in the table that holds the parameters and the names captured so far, so `x := …` after a use of an outer x is a redeclaration inside a function and fine at top level")
+	blk := w.compileArm("BlockStmt")
+	forks := blk != nil && containsNode(blk, func(nd ast.Node) bool {
+		call, ok := nd.(*ast.CallExpr)
+		if !ok || !isMethodOf(Callee(p, call), p.Types, "SymbolTable", "Fork") || len(call.Args) != 1 {
+			return false
+		}
+		v, known := constBool(p, call.Args[0])
+		return known && v
+	})
+	c.check(forks, "block-forks-scope", blk, "a block statement forks a block scope", "the block-statement arm does not fork a block scope (Fork(true))")
+}
+
+// paramWritten: does the function assign to (or take the address of) the object?
+func objWritten(p pkgT, body ast.Node, o types.Object) ast.Node {
+	var at ast.Node
+	ast.Inspect(body, func(n ast.Node) bool {
+		switch x := n.(type) {
+		case *ast.AssignStmt:
+			for _, l := range x.Lhs {
+				if id, ok := ast.Unparen(l).(*ast.Ident); ok && p.TypesInfo.ObjectOf(id) == o && p.TypesInfo.Defs[id] == nil {
+					at = x
+				}
+			}
+		case *ast.IncDecStmt:
+			if id, ok := ast.Unparen(x.X).(*ast.Ident); ok && p.TypesInfo.ObjectOf(id) == o {
+				at = x
+			}
+		case *ast.UnaryExpr:
+			if id, ok := ast.Unparen(x.X).(*ast.Ident); ok && x.Op == token.AND && p.TypesInfo.ObjectOf(id) == o {
+				at = x
+			}
+		}
+		return at == nil
+	})
+	return at
+}
+
+// MOD.6 (C13): one name per module. The cycle check, the cache of compiled
+// modules and the compiler forked for the module all identify the module by
+// the same string: compileModule hands one unmodified parameter to
+// checkCyclicImports, loadCompiledModule, fork and storeCompiledModule. If
+// the cache key is normalised and the cycle check is not (or the other way
+// round), a self-import through another spelling is never detected, and two
+// modules whose names normalise alike share one body.
+func ruleMOD6(c *Ctx) {
+	w := c.W
+	p := w.Root
+	fd := w.FuncDecl(p, "Compiler.compileModule")
+	if fd == nil {
+		c.anchor("Compiler.compileModule")
+		return
+	}
+	argObj := func(method string, idx int) (types.Object, *ast.CallExpr) {
+		var o types.Object
+		var at *ast.CallExpr
+		ast.Inspect(fd.Body, func(n ast.Node) bool {
+			call, ok := n.(*ast.CallExpr)
+			if !ok || !isMethodOf(Callee(p, call), p.Types, "Compiler", method) || idx >= len(call.Args) {
+				return true
+			}
+			at = call
+			if id, ok := ast.Unparen(call.Args[idx]).(*ast.Ident); ok {
+				o = p.TypesInfo.ObjectOf(id)
+			}
+			return true
+		})
+		return o, at
+	}
+	cyc, cycAt := argObj("checkCyclicImports", 1)
+	if cycAt == nil {
+		c.anchor("checkCyclicImports call in compileModule")
+		return
+	}
+	_, isParam := paramIndex(p, fd, cyc)
+	c.check(cyc != nil && isParam, "module-name/cycle-check", cycAt, "the cycle check gets the module name compileModule was called with", "the cycle check is not given compileModule's own module-name parameter")
+	if cyc == nil {
+		return
+	}
+	if at := objWritten(p, fd.Body, cyc); at != nil {
+		c.fail("module-name/unmodified", at, "compileModule rewrites the module name ("+w.Src(at)+"): the cycle check, the cache and the forked compiler no longer identify the module by one and the same string - a self-import through another spelling of the name is not detected, and modules whose names normalise alike share one compiled body")
+	} else {
+		c.ok("module-name/unmodified", fd, "the module name is not rewritten")
+	}
+	for _, m := range []struct {
+		name string
+		idx  int
+	}{{"loadCompiledModule", 0}, {"storeCompiledModule", 0}, {"fork", 1}} {
+		o, at := argObj(m.name, m.idx)
+		if at == nil {
+			c.fail("module-name/"+m.name, fd, "compileModule does not call "+m.name)
+			continue
+		}
+		c.check(o == cyc, "module-name/"+m.name, at, m.name+" identifies the module by the same name as the cycle check", m.name+" is given "+w.Src(at.Args[m.idx])+", not the name the cycle check sees")
+	}
+}
+
+// JSON.7 (C18): the bytes validated are the bytes given. Decode hands its
+// parameter, unmodified, to the validity automaton (JSON.1-2 decide that
+// automaton against encoding/json's); trimming or rewriting the input first
+// changes which documents are accepted.
+func ruleJSON7(c *Ctx) {
+	w := c.W
+	p := w.JSON
+	fd := w.FuncDecl(p, "Decode")
+	if fd == nil {
+		c.anchor("json.Decode")
+		return
+	}
+	var data types.Object
+	for _, f := range fd.Type.Params.List {
+		for _, nm := range f.Names {
+			if t, ok := p.TypesInfo.Defs[nm].Type().Underlying().(*types.Slice); ok {
+				if b, ok := t.Elem().Underlying().(*types.Basic); ok && b.Kind() == types.Byte {
+					data = p.TypesInfo.Defs[nm]
+				}
+			}
+		}
+	}
+	if data == nil {
+		c.anchor("the []byte parameter of json.Decode")
+		return
+	}
+	var cv *ast.CallExpr
+	ast.Inspect(fd.Body, func(n ast.Node) bool {
+		if call, ok := n.(*ast.CallExpr); ok && Callee(p, call) != nil && Callee(p, call).Name() == "checkValid" {
+			cv = call
+		}
+		return true
+	})
+	if cv == nil {
+		c.fail("validates-input-as-given", fd, "Decode does not call checkValid")
+		return
+	}
+	id, ok := ast.Unparen(cv.Args[0]).(*ast.Ident)
+	c.check(ok && p.TypesInfo.ObjectOf(id) == data, "validates-input-as-given", cv, "checkValid is given Decode's parameter", "checkValid is given "+w.Src(cv.Args[0])+", not the bytes Decode was called with")
+	if at := objWritten(p, fd.Body, data); at != nil {
+		c.fail("input-unmodified", at, "Decode rewrites its input before validating it ("+w.Src(at)+"): the set of accepted documents is no longer the automaton's (bytes.TrimSpace, for one, also drops \\v, \\f, U+0085, U+00A0, which JSON does not allow)")
+	} else {
+		c.ok("input-unmodified", fd, "the input is not rewritten")
+	}
+}
+
+// LIT.2 (C20, C04): wherever the parser turns the text of a string token
+// into a value it does so with strconv.Unquote. In every branch taken for
+// token.String, the token's text is used only as the argument of
+// strconv.Unquote, as the Literal field of a node, or in an error message.
+func ruleLIT2(c *Ctx) {
+	w := c.W
+	p := w.Parser
+	strTok := w.Token.Types.Scope().Lookup("String")
+	if strTok == nil {
+		c.anchor("token.String")
+		return
+	}
+	isStringTest := func(e ast.Expr) bool {
+		b, ok := ast.Unparen(e).(*ast.BinaryExpr)
+		if !ok || b.Op != token.EQL {
+			return false
+		}
+		return ConstObj(p, b.X) == strTok || ConstObj(p, b.Y) == strTok
+	}
+	seq := seqKeys{}
+	n := 0
+	check := func(fd *ast.FuncDecl, branch ast.Node) {
+		inspectWithStack(branch, func(nd ast.Node, stack []ast.Node) bool {
+			f, _ := func() (*types.Var, ast.Expr) {
+				if e, ok := nd.(ast.Expr); ok {
+					return FieldSel(p, e)
+				}
+				return nil, nil
+			}()
+			if f == nil || f.Name() != "tokenLit" {
+				return true
+			}
+			n++
+			okUse := false
+			why := ""
+			// `lit := p.tokenLit` and every use of lit is one of the allowed ones
+			par := len(stack) - 1
+			if par >= 0 && stack[par] == nd {
+				par--
+			}
+			if par >= 0 {
+				if as, ok := stack[par].(*ast.AssignStmt); ok && len(as.Lhs) == 1 && len(as.Rhs) == 1 && ast.Unparen(as.Rhs[0]) == nd {
+					if lid, ok := as.Lhs[0].(*ast.Ident); ok {
+						lobj := p.TypesInfo.ObjectOf(lid)
+						all, any := true, false
+						inspectWithStack(fd.Body, func(m ast.Node, st2 []ast.Node) bool {
+							id, ok := m.(*ast.Ident)
+							if !ok || p.TypesInfo.Uses[id] != lobj {
+								return true
+							}
+							any = true
+							good := false
+							for j := len(st2) - 1; j >= 0 && !good; j-- {
+								switch y := st2[j].(type) {
+								case *ast.CallExpr:
+									fn := Callee(p, y)
+									if FuncFullName(fn) == "strconv.Unquote" && len(y.Args) == 1 && ast.Unparen(y.Args[0]) == ast.Expr(id) {
+										good = true
+									}
+									if fn != nil && (isMethodOf(fn, p.Types, "Parser", "error") || isMethodOf(fn, p.Types, "Parser", "errorExpected")) {
+										good = true
+									}
+								case *ast.KeyValueExpr:
+									if w.Src(y.Key) == "Literal" && ast.Unparen(y.Value) == ast.Expr(id) {
+										good = true
+									}
+								}
+							}
+							if !good {
+								all = false
+							}
+							return true
+						})
+						if all && any {
+							okUse, why = true, "held in a local that is only unquoted, kept as literal text or reported"
+						}
+					}
+				}
+			}
+			for i := len(stack) - 1; i >= 0 && !okUse; i-- {
+				switch x := stack[i].(type) {
+				case *ast.CallExpr:
+					fn := Callee(p, x)
+					switch {
+					case FuncFullName(fn) == "strconv.Unquote" && len(x.Args) == 1 && ast.Unparen(x.Args[0]) == nd:
+						okUse, why = true, "converted by strconv.Unquote"
+					case fn != nil && (isMethodOf(fn, p.Types, "Parser", "error") || isMethodOf(fn, p.Types, "Parser", "errorExpected") || fn.Name() == "printTrace"):
+						okUse, why = true, "error / trace text"
+					}
+				case *ast.KeyValueExpr:
+					if w.Src(x.Key) == "Literal" && ast.Unparen(x.Value) == nd {
+						okUse, why = true, "kept as the node's literal text"
+					}
+				}
+			}
+			c.check(okUse, seq.next("string-token-text/"+funcKey(fd)), nd, why, "the text of a string token is used as "+w.Src(stack[len(stack)-1])+" in "+funcKey(fd)+": a string literal denotes what strconv.Unquote says it denotes (quotes, escapes, raw strings); trimming or slicing the text gives other values for some literals")
+			return false
+		})
+	}
+	w.AllFuncDecls(p, func(fd *ast.FuncDecl) {
+		ast.Inspect(fd.Body, func(nd ast.Node) bool {
+			switch x := nd.(type) {
+			case *ast.IfStmt:
+				if isStringTest(x.Cond) {
+					check(fd, x.Body)
+				}
+			case *ast.CaseClause:
+				for _, e := range x.List {
+					if ConstObj(p, e) == strTok {
+						for _, st := range x.Body {
+							check(fd, st)
+						}
+					}
+				}
+			}
+			return true
+		})
+	})
+	if n < 2 {
+		c.fail("string-token-text/count", nil, fmt.Sprintf("expected the string arms of parseOperand and parseMapElementLit, found %d uses of the token text", n))
+	}
+}
